@@ -19,6 +19,7 @@ import HvPush.Lemmas.Driver
 import HvPush.Lemmas.Route
 import HvPush.Lemmas.Queue
 import HvPush.Lemmas.Compose
+import HvPush.Lemmas.Compose2
 namespace HvPush
 open Prog
 
@@ -1527,6 +1528,58 @@ theorem pipeline_example (f : α → β) (g : β → List γ) (buf0 : List γ) (
   obtain ⟨hc, m1, e1, m2, e2, m3, e3, e4⟩ := h2 hr i hi
   refine ⟨hc, ?_⟩
   rw [e4, e3, e2, e1]; simp
+
+/-- **Tree-shaped pipelines follow by induction too**: a contract-sound two-port combinator feeding
+    two contract-sound sub-pipelines (`Comb.comp2`: port 0 → `Ka`, port 1 → `Kb`, whose ports are
+    renumbered after `Ka`'s `na` ports) is contract-sound. -/
+theorem pipeline_compose2 {K1 : Comb κ1 α β} {Ka : Comb κa β γ} {Kb : Comb κb β γ} {k1 : κ1} {ka : κa} {kb : κb}
+    {na : Nat} {S1 : Nat → List α → List β → Prop} {pA pB : List Nat} {SA SB : Nat → List β → List γ → Prop}
+    (h1 : K1.Sound k1 [0, 1] S1) (h1b : K1.Below k1 2)
+    (hA : Ka.Sound ka pA SA) (hAb : Ka.Below ka na) (hpA : ∀ i ∈ pA, i < na) (hB : Kb.Sound kb pB SB) :
+    (K1.comp2 Ka Kb na).Sound (k1, ka, kb) (pA ++ pB.map (· + na))
+      (fun i ins outs => if i < na then ∃ mid, S1 0 ins mid ∧ SA i mid outs
+        else ∃ mid, S1 1 ins mid ∧ SB (i - na) mid outs) :=
+  comp2_sound h1 h1b hA hAb hpA hB
+
+theorem fanout_below : (fanoutC : Comb Unit α α).Below () 2 := by
+  rw [aux_fanout_eq_route]; exact route_below 2 _
+
+theorem unzip_below : (unzipC : Comb Unit (β × β) β).Below () 2 := by
+  rw [aux_unzip_eq_route]; exact route_below 2 _
+
+/-- The F123 shape as a theorem about the fixed code: `fanout(map key → fold_keyed(A), B)` — with
+    `B`'s finalize pending arbitrarily often (so the finished keyed branch is polled again after
+    `Done`) `A` still receives every (key, acc) pair exactly once and nothing after its finalize. -/
+theorem pipeline_tree_example [DecidableEq K] (key : α → K × V) (init : A) (comb : A → V → A)
+    (order : List (K × A) → List (K × A)) (m0 : List (K × A)) (inA : K × A → γ) (inB : α → γ) :
+    let Ka := ((mapC key).comp (foldKeyedC init comb order)).comp (mapC inA)
+    let P := (fanoutC (α := α)).comp2 Ka (mapC inB) 1
+    P.Sound ((), (((), ⟨m0, [], 0⟩), ()), ()) [0, 1]
+      (fun i ins outs => if i = 0 then outs = (order (keyedMap (fun v => comb init v) comb m0 (ins.map key))).map inA
+        else outs = ins.map inB) := by
+  intro Ka P
+  have hmk : (mapC key).Mono () := (single_port_combinators (α := α) (β := K × V) (S := Unit)).1 _
+  have hmA : (mapC inA).Mono () := (single_port_combinators (α := K × A) (β := γ) (S := Unit)).1 _
+  have sK := pipeline_compose (map_sound key) hmk (foldKeyed_sound init comb order m0)
+  have mK := comp_mono (map_sound key) hmk (keyed_single_port (fun v => comb init v) comb order m0)
+  have sA := pipeline_compose sK mK (map_sound inA)
+  have mA := comp_mono sK mK hmA
+  have h := pipeline_compose2 (fanout_sound (α := α)) fanout_below sA mA.below (by simp) (map_sound inB)
+  intro up down k' ht hok
+  obtain ⟨g1, g2⟩ := h up down k' ht hok
+  refine ⟨g1, fun hc i hi => ?_⟩
+  simp only [List.mem_cons, List.mem_nil_iff, or_false] at hi
+  rcases hi with rfl | rfl
+  · obtain ⟨c, m1, e1, m2, ⟨m3, e3, e4⟩, e5⟩ := g2 hc 0 (by simp)
+    refine ⟨c, ?_⟩
+    simp only [if_true]
+    rw [e5, e4, e3, e1]
+  · obtain ⟨c, hs⟩ := g2 hc 1 (by simp)
+    refine ⟨c, ?_⟩
+    simp only [Nat.lt_irrefl, if_false, Nat.sub_self] at hs
+    obtain ⟨m1, e1, e2⟩ := hs
+    simp only [Nat.succ_ne_zero, if_false]
+    rw [e2, e1]
 
 /-! ## Non-vacuity: concrete instances -/
 
